@@ -1,7 +1,13 @@
 (* C08 model runner: reads the harness' result line (dump + per input `IN` [+ `FM` faulty mask], and with recovery
    the `EA` lines whose applied repair sequences are replayed), runs the mirror of today's
    code and the mirror of the repaired code, prints logs in the harness' format:
-     # V wf= S=   then per input   # IN …  # OA … # L …* # EA …*   # FOA … # FL …* *)
+     # V wf= S=   then per input   # IN …  # OA … # L …* # EA …*   # FOA … # FL …*
+   and, from the mirrors driven by a recoverer FUNCTION (C08.DetModel):
+     # MN                (only if so) the reported sequences are not a function of the configuration (see recoverer_of)
+     # MF <1|0>          run_actions_fixed_f (function = the reported applied sequences of parse_actions, by configuration)
+                         gives what run_actions_fixed_rec gives on the oracle list
+     # MG <outcome> # ME <tok>:<s>:<e> <stidx> …* # MT <tree>     run_generic_fixed_f (generic tree mode, function = the
+                         reported applied sequences of parse_map) in the harness' OG / EG / TG format *)
 let ios = int_of_string
 
 let pp_arg b = function
@@ -37,6 +43,49 @@ let repair_of (w : string) : repair =
   if w = "D" then RDelete else if w = "S" then RShift
   else RInsert (n_of_int (ios (String.sub w 1 (String.length w - 1))))
 
+(* a recoverer FUNCTION (lexemes, laidx, parse stack) -> sequence built from the sequences an implementation reports, in
+   order: a question about a configuration is answered with the next reported sequence.  Asked about the same configuration
+   again (a repair that made no progress: conflict-resolved tables, C05-C07) the implementation must have given the same
+   answer; if it did not (the last search before the time budget ran out finds nothing) [nonfun] is set: the
+   implementation's recoverer was a function of configuration AND time on this input, outside DetModel's reading *)
+let recoverer_of (reported : repair list option list) (nonfun : bool ref) : lexeme list -> nat -> n list -> repair list option =
+  let queue = ref reported in
+  let memo = Hashtbl.create 8 in
+  fun _ laidx ps ->
+    let key = (int_of_nat laidx, List.map int_of_n ps) in
+    let r = (match !queue with x :: rest -> queue := rest; x | [] -> None) in
+    (match Hashtbl.find_opt memo key with
+     | Some r0 -> if r0 <> r then nonfun := true
+     | None -> Hashtbl.add memo key r);
+    r
+
+let rec pp_gtree b = function
+  | GTerm l -> Buffer.add_string b (Printf.sprintf "[%d %d %d %d]" (int_of_n l.lx_tok) (int_of_nat l.lx_start)
+                                      (int_of_nat l.lx_end) (if l.lx_faulty then 1 else 0))
+  | GNonterm (r, kids) ->
+      Buffer.add_string b (Printf.sprintf "(%d" (int_of_n r));
+      List.iter (fun k -> Buffer.add_char b ' '; pp_gtree b k) kids;
+      Buffer.add_char b ')'
+
+let pp_gres b (r : gres outcome) =
+  match r with
+  | Panic -> Buffer.add_string b " # MG panic"
+  | OutOfFuel -> Buffer.add_string b " # MG fuel"
+  | Done r ->
+      Buffer.add_string b (match r.g_val with Some _ -> " # MG acc" | None -> " # MG none");
+      List.iter (fun ((l, st), _) ->
+        Buffer.add_string b (Printf.sprintf " # ME %d:%d:%d %d" (int_of_n l.lx_tok) (int_of_nat l.lx_start)
+                               (int_of_nat l.lx_end) (int_of_n st))) r.g_errs;
+      Buffer.add_string b " # MT ";
+      (match r.g_val with Some t -> pp_gtree b t | None -> Buffer.add_char b '-')
+
+let same_as_oracle_run (f : fres outcome) (o : pres outcome) : bool =
+  match f, o with
+  | Done f, Done o -> f.f_val = o.r_val && f.f_log = o.r_log && List.map fst f.f_errs = o.r_errs
+  | Panic, Panic -> true
+  | OutOfFuel, OutOfFuel -> true
+  | _, _ -> false
+
 let () =
   iter_lines (fun line ->
     if String.length line < 2 || String.sub line 0 2 <> "G " then "SKIP" else
@@ -51,20 +100,31 @@ let () =
     let groups = ref [] in
     List.iter (fun sec ->
       match sec with
-      | "IN" :: ws -> groups := (ws, ref [], ref "") :: !groups
-      | "FM" :: m :: _ -> (match !groups with (_, _, fm) :: _ -> fm := m | [] -> ())
+      | "IN" :: ws -> groups := (ws, ref [], ref "", ref []) :: !groups
+      | "FM" :: m :: _ -> (match !groups with (_, _, fm, _) :: _ -> fm := m | [] -> ())
       | "EA" :: _ :: _ :: nrep :: rs ->
           (match !groups with
-           | (_, eas, _) :: _ -> eas := (if ios nrep = 0 then None else Some (List.map repair_of rs)) :: !eas
+           | (_, eas, _, _) :: _ -> eas := (if ios nrep = 0 then None else Some (List.map repair_of rs)) :: !eas
+           | [] -> ())
+      | "EG" :: _ :: _ :: nrep :: rs ->
+          (match !groups with
+           | (_, _, _, egs) :: _ -> egs := (if ios nrep = 0 then None else Some (List.map repair_of rs)) :: !egs
            | [] -> ())
       | _ -> ()) secs;
     let magic = nat_of_int 77 in
-    List.iter (fun (ws, eas, fm) ->
+    List.iter (fun (ws, eas, fm, egs) ->
       let lexemes = triples !fm 0 ws in
       let oracle = List.rev !eas in
       let fuel = nat_of_int (400 + 60 * (List.length lexemes + 2) * (List.length g.prods + 2)) in
       Buffer.add_string b " # IN";
       List.iter (fun w -> Buffer.add_char b ' '; Buffer.add_string b w) ws;
       pp_res b "OA" "L" "EA" (run_actions_rec g a magic lexemes fuel rec_on oracle);
-      pp_res b "FOA" "FL" "FEA" (run_actions_fixed_rec g a magic lexemes fuel rec_on oracle)) (List.rev !groups);
+      let fixed = run_actions_fixed_rec g a magic lexemes fuel rec_on oracle in
+      pp_res b "FOA" "FL" "FEA" fixed;
+      let nonfun = ref false in
+      let ff = run_actions_fixed_f g a magic lexemes (recoverer_of oracle nonfun) fuel rec_on in
+      Buffer.add_string b (Printf.sprintf " # MF %s" (b2s (same_as_oracle_run ff fixed)));
+      let gr = run_generic_fixed_f g a lexemes (recoverer_of (List.rev !egs) nonfun) fuel rec_on in
+      if !nonfun then Buffer.add_string b " # MN";
+      pp_gres b gr) (List.rev !groups);
     Buffer.contents b)
